@@ -222,7 +222,8 @@ def explains(broken_item, found):
     for word in ("resize", "resample", "downsample", "upsample", "crop", "pad", "narrow", "pool", "conv", "region_of_interest", "pyramid", "sample"):
         if word in b and word in keys:
             return True
-    return any(k in keys for k in (":ramp", ":shape", ":index-", ":raises", ":pad-value"))
+    # any new concrete violation is attributed to broken obligations without a more specific cause
+    return True
 
 
 def replay(ctx, data):
